@@ -134,6 +134,15 @@ def parseUsars (s : String) : List UsarObs :=
       some { urr := natD u, seqn := natD q, trig := w, times := ti, vol := v, dur := d }
     | _ => none
 
+/-- C12, specification side: which PDR names which URRs, as the accepted requests say -/
+structure C12Sess where
+  pdrs : List (Nat × List Nat) := []
+  urrs : List Nat := []
+  tainted : Bool := false      -- an id was re-used while live (Create of an existing PDR / URR id): outside what is checked
+deriving Inhabited
+
+def C12Sess.refs (c : C12Sess) (u : Nat) : Nat := (c.pdrs.filter fun p => p.2.contains u).length
+
 /-- what the predicates remember across the events of a case -/
 structure PState where
   prev : Dump := {}
@@ -141,6 +150,8 @@ structure PState where
   outst : List ((Nat × Nat) × (String × Nat)) := []   -- (peer, wire seq) ↦ (srreq as sent, header SEID)
   maxRetrans : Nat := 3
   nextSeqn : List ((Nat × Nat) × Nat) := []           -- (UP SEID, URR id) ↦ UR-SEQN the next report must carry
+  c12 : List (Nat × C12Sess) := []                    -- UP SEID ↦ the PDR → URR lists and live URRs the requests imply (C12)
+  faultPct : Nat := 0
 deriving Inhabited
 
 def eventKind (toks : List String) : String := lookD (kvs toks) "kind" (toks.headD "")
@@ -319,7 +330,76 @@ def check (ps : PState) (evLine : String) (obs : List String) (fault : Option St
                 fs := fs ++ [s!"C11 usage report of URR {u.urr} (session {hexN up}) carries UR-SEQN {u.seqn}; it is report number {want} since the URR was created"]
               tbl := ((up, u.urr), want + 1) :: tbl.filter (·.1 != (up, u.urr))
     return (tbl, fs)
-  let fails := fails ++ c11fails
+  -- C12 (external): a URR that loses its last referring PDR in this request has its usage queried exactly once and the
+  -- reports returned are flagged TERMR in the response
+  let pdrRules (key : String) : List (Nat × List Nat) := (listOf (lookD m key "_")).filterMap fun t =>
+    match splitOn1 t '/' with
+    | i :: us :: _ => (parseId i).map fun n => (n, if us == "" then [] else (natList us '+').eraseDups)
+    | [i] => (parseId i).map fun n => (n, [])
+    | [] => none
+  let idRules (key : String) : List Nat := ((listOf (lookD m key "_")).map fun t => (splitOn1 t '/').headD "-").filterMap parseId
+  -- a rule IE without its id child is not well-formed (the code files it under id 0): such sessions are left out
+  let noId (keys : List String) : Bool := keys.any fun key =>
+    (listOf (lookD m key "_")).any fun t => (parseId ((splitOn1 t '/').headD "-")).isNone
+  let (c12', c12fails) : List (Nat × C12Sess) × List String := Id.run do
+    let mut tbl := ps.c12
+    let mut fs : List String := []
+    if typ == "recv" && !isDup && kind == "est" then
+      for s in sends do
+        if s.kind == "estrsp" && lookD s.f "cause" "" == "1" then
+          let up := hexD ((splitOn1 (lookD s.f "fseid" "-") '/').headD "0")
+          let pd := pdrRules "pdr"
+          let ur := idRules "urr"
+          let dupIds := (pd.map (·.1)).eraseDups.length != pd.length || ur.eraseDups.length != ur.length || noId ["pdr", "urr"]
+          tbl := (up, { pdrs := pd, urrs := ur, tainted := dupIds }) :: tbl.filter (·.1 != up)
+    if typ == "recv" && !isDup && kind == "del" then tbl := tbl.filter (·.1 != seid)
+    if typ == "recv" && !isDup && kind == "assoc" then
+      tbl := tbl.filter fun e => (d.live e.1).isSome
+    if typ == "recv" && !isDup && kind == "srrsp" then
+      tbl := tbl.filter fun e => (d.live e.1).isSome
+    if typ == "recv" && !isDup && kind == "mod" && (prev.live seid).isSome then
+      match tbl.find? (·.1 == seid) with
+      | none => pure ()
+      | some (_, c0) =>
+        let mut c := if noId ["cpdr", "curr", "rpdr", "rurr", "updr"] then { c0 with tainted := true } else c0
+        let mut expectQ : List Nat := []
+        for u in idRules "curr" do
+          if c.urrs.contains u then c := { c with tainted := true } else c := { c with urrs := c.urrs ++ [u] }
+        for (i, us) in pdrRules "cpdr" do
+          if (c.pdrs.any (·.1 == i)) then c := { c with tainted := true } else c := { c with pdrs := c.pdrs ++ [(i, us)] }
+        for u in idRules "rurr" do
+          c := { c with urrs := c.urrs.filter (· != u) }
+        for i in idRules "rpdr" do
+          match c.pdrs.find? (·.1 == i) with
+          | none => pure ()
+          | some (_, us) =>
+            c := { c with pdrs := c.pdrs.filter (·.1 != i) }
+            for u in us do
+              if c.urrs.contains u && c.refs u == 0 then expectQ := expectQ ++ [u]
+        for (i, us) in pdrRules "updr" do
+          match c.pdrs.find? (·.1 == i) with
+          | none => pure ()
+          | some (_, old) =>
+            c := { c with pdrs := c.pdrs.map fun p => if p.1 == i then (i, us) else p }
+            for u in old do
+              if !us.contains u && c.urrs.contains u && c.refs u == 0 then expectQ := expectQ ++ [u]
+        -- faults injected into the data plane make "the PDR exists" itself uncertain: the predicate is evaluated on fault-free cases
+        let anyErr := dps.any fun x => !x.2.2.2.2
+        if !c.tainted && !c0.tainted && ps.faultPct == 0 && !anyErr then
+          for u in expectQ.eraseDups do
+            let nq := (dps.filter fun x => x.1 == seid && x.2.1 == "query" && x.2.2.1 == "urr" && x.2.2.2.1 == u).length
+            let times := (expectQ.filter (· == u)).length
+            if nq != times then
+              fs := fs ++ [s!"C12 URR {u} of session {hexN seid} lost its last referring PDR in this request ({times} time(s)); its usage was queried {nq} time(s) — the final report is due exactly once"]
+            else
+              -- what the data plane returned for that URR must come back flagged as termination report
+              let rsp := (sends.filter fun s => s.kind == "modrsp").flatMap fun s => parseUsars (lookD s.f "usar" "_")
+              let mine := rsp.filter (·.urr == u)
+              if mine.any fun r => r.trig / Gen.report.USAR_TRIG_TERMR % 2 == 0 then
+                fs := fs ++ [s!"C12 the final report of URR {u} (session {hexN seid}) is not marked as a termination report"]
+        tbl := (seid, c) :: tbl.filter (·.1 != seid)
+    return (tbl, fs)
+  let fails := fails ++ c11fails ++ c12fails
   -- bookkeeping for the next event
   let cache' := if typ == "recv" && kind ∈ ["hb", "assoc", "est", "mod", "del", "other"] && !isDup then
       let rsp := (sends.filter fun s => s.kind != "srreq" && s.peer == peer).map (·.raw)
@@ -333,6 +413,6 @@ def check (ps : PState) (evLine : String) (obs : List String) (fault : Option St
   let outst0 := if typ == "recv" && (kind == "srrsp" || kind == "orsp") then ps.outst.filter (·.1 != (peer, seq)) else ps.outst
   let outst1 := if typ == "tmo" && lookD m "k" "" == "tx" && !(d.tx.any fun t => t.1 == s!"p{peer}-{seq}")
     then outst0.filter (·.1 != (peer, seq)) else outst0
-  ({ ps with prev := d, cache := cache', outst := outst1 ++ newReqs, nextSeqn := seq1 }, fails)
+  ({ ps with prev := d, cache := cache', outst := outst1 ++ newReqs, nextSeqn := seq1, c12 := c12' }, fails)
 
 end UpfVerif.Driver.CtlProps
